@@ -6,15 +6,24 @@ package metricstorage
 
 // ghost count of applications to the ungrouped vectors
 //@ ghost nVec int
+// name and label map of each application, in call order
+//@ ghost vecName map[int]string
+//@ ghost vecLabels map[int]map[string]string
 //@ trusted func (*MetricStorage).CounterAdd
-//@   modifies nVec
-//@   ensures nVec == old(nVec) + 1
+//@   modifies nVec, vecName, vecLabels
+//@   ghostset nVec := nVec + 1
+//@   ghostset vecName[nVec] := metric
+//@   ghostset vecLabels[nVec] := labels
 //@ trusted func (*MetricStorage).GaugeSet
-//@   modifies nVec
-//@   ensures nVec == old(nVec) + 1
+//@   modifies nVec, vecName, vecLabels
+//@   ghostset nVec := nVec + 1
+//@   ghostset vecName[nVec] := metric
+//@   ghostset vecLabels[nVec] := labels
 //@ trusted func (*MetricStorage).HistogramObserve
-//@   modifies nVec
-//@   ensures nVec == old(nVec) + 1
+//@   modifies nVec, vecName, vecLabels
+//@   ghostset nVec := nVec + 1
+//@   ghostset vecName[nVec] := metric
+//@   ghostset vecLabels[nVec] := labels
 
 // number of explicit expire operations among ops[0..i)
 //@ specfn nExp(ops []operation.MetricOperation, i int) int
@@ -41,9 +50,11 @@ package metricstorage
 //@ func (*MetricStorage).sendBatchV0
 //@   prop C16
 //@   requires forall(j, 0, len(ops), operation.Valid(ops[j]) && ops[j].Group == "")
-//@   modifies nVec
+//@   modifies nVec, vecName, vecLabels
 //@   ensures [no-partial] result == nil
 //@   ensures [once-each]  m != nil ==> nVec == old(nVec) + len(ops)
+//@   ensures [own-name-and-labels] m != nil ==> forall(k, old(nVec), nVec, vecName[k] == ops[k - old(nVec)].Name && utils.mergedFirst(vecLabels[k]) == ops[k - old(nVec)].Labels && utils.mergedSecond(vecLabels[k]) == labels)
 //@   loop 1
 //@     invariant 0 <= iter() && iter() <= len(ops)
 //@     invariant nVec == old(nVec) + iter()
+//@     invariant forall(k, old(nVec), nVec, vecName[k] == ops[k - old(nVec)].Name && utils.mergedFirst(vecLabels[k]) == ops[k - old(nVec)].Labels && utils.mergedSecond(vecLabels[k]) == labels)
